@@ -361,8 +361,10 @@ PROPS = {
                    final_rc3=True)]),
     "C07": dict(
         design=[(CORE, [Q1, "MC_RainCore_gap.cfg"],
-                 ["MC_RainCore_small.cfg", "MC_RainCore_pins.cfg", "MC_RainCore_gap.cfg"])],
+                 ["MC_RainCore_small.cfg", "MC_RainCore_pins.cfg", "MC_RainCore_gap.cfg",
+                  "MC_RainCore_expandq.cfg"])],
         switches=[("Bug_NoBoundary", CORE, Q1, None), ("Bug_DropTombNoBase", CORE, Q1, None),
+                  ("Bug_ExpandKeepsParents", CORE, "MC_RainCore_expand.cfg", None),
                   ("Bug_ImmDropEarly", CORE, Q1, None),
                   ("Bug_FlushDeepDuringCompaction", CORE, "MC_RainCore_gap.cfg", None)],
         work=[dict(driver="hist", args=["--nops", "70", "--per-file", "6", "--compact-bias", "1"],
